@@ -3,7 +3,7 @@
 From Coq Require Import List Bool Permutation.
 Import ListNotations.
 From Mos Require Import Str Xml Outcome Seq Spec Elements Classify Messages Merge Proto.
-From Mos.proofs Require Import Lift Examples.
+From Mos.proofs Require Import Lift Examples StoryStable NoDupFacts NoDupExample.
 
 (* For every running order with unique story IDs (any number of stories, any other
    children of roCreate anywhere), every story-level class k and every schema-shaped
@@ -44,3 +44,41 @@ Theorem C01_nonvacuous :
   proto_story k b (story_ids ro) = Some ids' /\ ids' <> story_ids ro.
 Proof. exact ex_story_move. Qed.
 Print Assumptions C01_nonvacuous.
+
+(* The hypothesis "unique story IDs" of C01_story_order is an invariant: it survives every
+   merge - successful, warned or raised - of a message with an integer messageID whose carried
+   stories do not clash with the IDs present (fresh_in: the appended / replacing stories are
+   new and distinct; inserts need nothing, duplicates are skipped by the code; roReplace must
+   itself carry distinct IDs; roMetadataReplace must not carry <story> elements). *)
+Theorem C01_unique_ids_preserved :
+  forall (o : oracles) (ro : xml) (k : mclass) (m : xml),
+  rc_of ro <> None -> msg_ok m = true -> NoDup (story_ids ro) -> fresh_in ro k m ->
+  rc_of (r_st (add o ro k m)) <> None /\ NoDup (story_ids (r_st (add o ro k m))).
+Proof. exact add_nodup. Qed.
+Print Assumptions C01_unique_ids_preserved.
+
+(* ... hence in every state reached by a history of such messages: C01_story_order applies
+   after any prior history, not only to the first merge. *)
+Theorem C01_unique_ids_along_histories :
+  forall (o : oracles) (h : list (mclass * xml)) (ro : xml),
+  rc_of ro <> None -> NoDup (story_ids ro) -> fresh_along o ro h ->
+  NoDup (story_ids (fold_left (fun s km => r_st (add o s (fst km) (snd km))) h ro)).
+Proof. exact history_nodup. Qed.
+Print Assumptions C01_unique_ids_along_histories.
+
+(* Item-level merges never change the sequence of story IDs, whatever the message and its
+   outcome. *)
+Theorem C01_item_ops_keep_story_ids :
+  forall (o : oracles) (k : mclass) (m b rc : xml),
+  is_item_class k = true ->
+  keys skey (r_st (merge_kids o k m b rc)) = keys skey (kids_of rc).
+Proof. exact item_merge_story_keys. Qed.
+Print Assumptions C01_item_ops_keep_story_ids.
+
+(* non-vacuity of the invariant: append a new story, move it to the top, replace it by two *)
+Theorem C01_unique_ids_example :
+  rc_of ex_ro <> None /\ NoDup (story_ids ex_ro) /\ fresh_along no_oracles ex_ro ex_history /\
+  story_ids (fold_left (fun s km => r_st (add no_oracles s (fst km) (snd km))) ex_history ex_ro)
+  = ex_history_ids.
+Proof. exact ex_fresh_history. Qed.
+Print Assumptions C01_unique_ids_example.
